@@ -11,6 +11,7 @@ import (
 	"fmt"
 	"math/big"
 	"strings"
+	"sync"
 	"sync/atomic"
 	"time"
 
@@ -52,10 +53,15 @@ type layerAccounts struct {
 }
 
 func (l *layerAccounts) AccountByPublicKey(_ context.Context, pubkey phase0.BLSPubKey) (e2wtypes.Account, error) {
-	if pubkey != proposerPubkey {
-		return nil, errors.New("unknown account")
+	for i := 0; i < 2; i++ {
+		if pubkey == proposerOf(i) {
+			if i == 0 {
+				return l.acct, nil
+			}
+			return &layerAccount{pub: rawPub(proposerOf(i))}, nil
+		}
 	}
-	return l.acct, nil
+	return nil, errors.New("unknown account")
 }
 
 // The first request (initial fetch of the execution configuration, inline in
@@ -117,6 +123,17 @@ type layerWorld struct {
 type countingProvider struct {
 	inner builderbid.Provider
 	calls atomic.Int32
+	mu    sync.Mutex
+	log   []stratCall // completed calls
+}
+
+// stratCall is one completed run of the bid strategy.
+type stratCall struct {
+	slot   phase0.Slot
+	parent phase0.Hash32
+	pubkey phase0.BLSPubKey
+	res    *blockauctioneer.Results
+	err    error
 }
 
 func (p *countingProvider) BuilderBid(ctx context.Context,
@@ -127,7 +144,17 @@ func (p *countingProvider) BuilderBid(ctx context.Context,
 	builderConfigs map[phase0.BLSPubKey]*blockrelay.BuilderConfig,
 ) (*blockauctioneer.Results, error) {
 	p.calls.Add(1)
-	return p.inner.BuilderBid(ctx, slot, parentHash, pubkey, proposerConfig, builderConfigs)
+	res, err := p.inner.BuilderBid(ctx, slot, parentHash, pubkey, proposerConfig, builderConfigs)
+	p.mu.Lock()
+	p.log = append(p.log, stratCall{slot: slot, parent: parentHash, pubkey: pubkey, res: res, err: err})
+	p.mu.Unlock()
+	return res, err
+}
+
+func (p *countingProvider) completed() []stratCall {
+	p.mu.Lock()
+	defer p.mu.Unlock()
+	return append([]stratCall(nil), p.log...)
 }
 
 type layerObs struct {
@@ -278,4 +305,200 @@ func judgeLayer(c *Case, o *observation, j *judgement) []verdict {
 		}
 	}
 	return vs
+}
+
+// ---------------------------------------------------------------------------------------------
+// histories on one block relay service
+
+type histStepObs struct {
+	res      *blockauctioneer.Results
+	bid      *builderspec.VersionedSignedBuilderBid
+	err      error
+	panicked string
+	calls    []stratCall // strategy runs that completed during the step
+}
+
+type histObs struct {
+	steps   []histStepObs
+	triples []tripleVal
+	hung    bool
+}
+
+// runHistory executes the steps one after the other, as vouch (AuctionBlock) and
+// a beacon node (BuilderBid) would.
+func (l *layerWorld) runHistory(ctx context.Context, c *Case, triples []tripleVal, release func()) *histObs {
+	h := &histObs{triples: triples}
+	for _, st := range c.History {
+		tv := triples[st.T]
+		before := len(l.counting.completed())
+		var so histStepObs
+		ch := make(chan struct{})
+		go func() {
+			defer close(ch)
+			defer func() {
+				if r := recover(); r != nil {
+					so.panicked = fmt.Sprint(r)
+				}
+			}()
+			if st.Op == "auction" {
+				so.res, so.err = l.svc.AuctionBlock(ctx, tv.slot, tv.parent, tv.pubkey)
+			} else {
+				so.bid, so.err = l.svc.BuilderBid(ctx, tv.slot, tv.parent, tv.pubkey)
+			}
+		}()
+		select {
+		case <-ch:
+		case <-time.After(6 * time.Second):
+			h.hung = true
+			release()
+			select {
+			case <-ch:
+			case <-time.After(5 * time.Second):
+			}
+			return h
+		}
+		so.calls = l.counting.completed()[before:]
+		h.steps = append(h.steps, so)
+	}
+	return h
+}
+
+func winnerOf(res *blockauctioneer.Results) *builderspec.VersionedSignedBuilderBid {
+	if res == nil || res.WinningParticipation == nil {
+		return nil
+	}
+	return res.WinningParticipation.Bid
+}
+
+func sameBid(a, b *builderspec.VersionedSignedBuilderBid) bool {
+	if a == b {
+		return true
+	}
+	if a == nil || b == nil {
+		return false
+	}
+	ra, err1 := a.MessageHashTreeRoot()
+	rb, err2 := b.MessageHashTreeRoot()
+	sa, err3 := a.Signature()
+	sb, err4 := b.Signature()
+	return err1 == nil && err2 == nil && err3 == nil && err4 == nil && ra == rb && sa == sb
+}
+
+func describeBid(b *builderspec.VersionedSignedBuilderBid) string {
+	if b == nil {
+		return "no bid"
+	}
+	v, _ := b.Value()
+	ph, _ := b.ParentHash()
+	bh, _ := b.BlockHash()
+	return fmt.Sprintf("bid(value %v, parent %#x.., block %#x..)", v, ph[:4], bh[:4])
+}
+
+// judgeHistory: the bid served to a beacon node for (slot, parent, pubkey) is exactly the
+// winner of the auction that was run for that slot, parent and pubkey, nothing if that
+// auction had no winner, and never a bid built on another parent or for another slot.
+func judgeHistory(c *Case, h *histObs) (vs []verdict, labels map[string]bool, nontrivial bool) {
+	labels = map[string]bool{}
+	add := func(sig, format string, args ...any) {
+		vs = append(vs, verdict{sig: "layer:" + sig, detail: fmt.Sprintf(format, args...)})
+	}
+	latest := map[int]*stratCall{} // triple -> latest strategy run for it
+	tripleOfCall := func(sc *stratCall) int {
+		for k, tv := range h.triples {
+			if tv.slot == sc.slot && tv.parent == sc.parent && tv.pubkey == sc.pubkey {
+				return k
+			}
+		}
+		return -1
+	}
+	for i := range h.steps {
+		so := &h.steps[i]
+		st := c.History[i]
+		tv := h.triples[st.T]
+		where := fmt.Sprintf("step %d %s(slot%+d, parent %d, proposer %d)", i, st.Op, c.Triples[st.T].SlotDelta, c.Triples[st.T].Parent, c.Triples[st.T].Key)
+		if so.panicked != "" {
+			add("call-panicked", "%s panicked: %s", where, strings.SplitN(so.panicked, "\n", 2)[0])
+			return
+		}
+		foreign := false
+		for k := range so.calls {
+			if tripleOfCall(&so.calls[k]) != st.T {
+				foreign = true
+			}
+		}
+		if foreign {
+			add("strategy-run-for-another-triple", "%s ran the bid strategy for a slot, parent or proposer other than the requested one", where)
+			return
+		}
+		prev := latest[st.T]
+		if len(so.calls) > 0 {
+			latest[st.T] = &so.calls[len(so.calls)-1]
+		}
+		switch st.Op {
+		case "auction":
+			if so.err != nil {
+				add("auction-returned-error", "%s returned error %v", where, so.err)
+				continue
+			}
+			if len(so.calls) != 1 {
+				add("auction-ran-strategy-n-times", "%s ran the bid strategy %d times", where, len(so.calls))
+				continue
+			}
+			if !sameBid(winnerOf(so.res), winnerOf(so.calls[0].res)) {
+				add("auction-result-is-not-the-strategy-result", "%s returned %s, the strategy chose %s", where, describeBid(winnerOf(so.res)), describeBid(winnerOf(so.calls[0].res)))
+			}
+			if winnerOf(so.res) != nil {
+				labels["history:auction-with-winner"] = true
+			} else {
+				labels["history:auction-without-winner"] = true
+			}
+		case "bid":
+			if so.bid != nil {
+				if ph, err := so.bid.ParentHash(); err != nil || ph != tv.parent {
+					add("served-bid-built-on-another-parent", "%s was served %s", where, describeBid(so.bid))
+					continue
+				}
+				if ts, err := so.bid.Timestamp(); err != nil || ts != tv.slotTs {
+					add("served-bid-of-another-slot", "%s was served %s with timestamp %d, the slot starts at %d", where, describeBid(so.bid), ts, tv.slotTs)
+					continue
+				}
+			}
+			if prev != nil && len(so.calls) > 0 {
+				add("bid-refetched", "%s ran the bid strategy again although an auction for this slot, parent and proposer had finished", where)
+				continue
+			}
+			cur := latest[st.T]
+			if cur == nil {
+				// never auctioned and no immediate auction happened: nothing to compare with
+				if so.bid != nil {
+					add("bid-served-without-auction", "%s was served %s although no auction was ever run for this slot, parent and proposer", where, describeBid(so.bid))
+				}
+				labels["history:bid-for-unauctioned-triple-without-fetch"] = true
+				continue
+			}
+			if prev == nil {
+				labels["history:immediate-auction"] = true
+			} else {
+				labels["history:bid-from-cache"] = true
+			}
+			want := winnerOf(cur.res)
+			switch {
+			case so.err != nil && cur.err == nil:
+				add("bid-served-as-error", "%s returned error %v; the auction for it chose %s", where, so.err, describeBid(want))
+			case want == nil && so.bid != nil:
+				add("no-winner-but-bid-served", "%s: the auction had no winner, the beacon node was served %s", where, describeBid(so.bid))
+			case want != nil && so.bid == nil && so.err == nil:
+				add("winner-not-served", "%s: the auction chose %s, the beacon node was served nothing", where, describeBid(want))
+			case want != nil && so.bid != nil && !sameBid(want, so.bid):
+				add("served-bid-is-not-the-winner", "%s: the auction chose %s, the beacon node was served %s", where, describeBid(want), describeBid(so.bid))
+			}
+			// non-trivial: another triple with the same slot and proposer but another parent has been auctioned too
+			for k, sc := range latest {
+				if k != st.T && sc.slot == tv.slot && sc.pubkey == tv.pubkey && sc.parent != tv.parent && (winnerOf(sc.res) != nil || want != nil) {
+					nontrivial = true
+				}
+			}
+		}
+	}
+	return vs, labels, nontrivial
 }
